@@ -347,7 +347,7 @@ def oracle_n(ctx, st, n):
                 # compose is exact here (no Nyquist content)
                 y2 = call(ctx, st, "fshift", lambda: fourier.fshift(y, 0.375), desc, {"clause": "compose"})
                 if y2 is not None and shape_ok(ctx, y2, x, desc):
-                    ok, err = close(y2, trig(t - s - 0.375), dt, sc * (100 if dt == "f32" else 1))
+                    ok, err = close(y2, trig(t - s - 0.375), dt, sc)
                     if not ok:
                         ctx.fail("successive fractional shifts of a band-limited signal do not add up "
                                  "(max err %.3g)" % err, desc,
@@ -435,7 +435,7 @@ def oracle_n_light(ctx, st, n):
         if not ok:
             ctx.fail("per-trace integer shifts are not per-trace rolls (max err %.3g)" % err, desc,
                      {"clause": "per_trace"})
-        ok, err = close(r[1], r[2], dt, 100.0 * (100 if dt == "f32" else 1))
+        ok, err = close(r[1], r[2], dt, 100.0)
         if not ok:
             ctx.fail("a fractional shift followed by per-trace integer shifts does not add up (max err %.3g)" % err,
                      desc, {"clause": "compose", "shifts": "frac+int", "nyquist_content": True,
@@ -794,7 +794,7 @@ def replay(ctx, data):
                       np.stack([np.roll(X[i], int(sv[i])) for i in range(X.shape[0])]), tol * 100)
             return rc or _cmp("fshift(fshift(X,s),svec) vs fshift(X,s+svec)",
                               fourier.fshift(fourier.fshift(X, inp["s"]), sv), fourier.fshift(X, sv + inp["s"]),
-                              tol * 100 * (100 if dt == "f32" else 1))
+                              tol * 100)
         eye = np.eye(n, dtype=DT[dt])
         if kind == "impulse_int":
             m, ax = inp["shift"], inp.get("axis", -1)
